@@ -89,6 +89,29 @@ class Owner:
         self.log.append((self.name, 'auth_completed'))
 
 
+class LogTCP(asyncssh.SSHTCPSession):
+    def __init__(self, log, name):
+        self.log = log
+        self.name = name
+
+    def connection_made(self, chan):
+        self.log.append((self.name, 'connection_made'))
+
+    def session_started(self):
+        self.log.append((self.name, 'session_started'))
+
+    def data_received(self, data, datatype):
+        self.log.append((self.name, 'data'))
+
+    def eof_received(self):
+        self.log.append((self.name, 'eof'))
+        return True
+
+    def connection_lost(self, exc):
+        self.log.append((self.name, 'connection_lost',
+                         type(exc).__name__ if exc else None))
+
+
 class LogSess(asyncssh.SSHClientSession):
     def __init__(self, log, name):
         self.log = log
@@ -167,6 +190,43 @@ def run_history(case) -> CaseResult:
                 return False
             return decide()
 
+        def connection_requested(self, dest_host, dest_port, orig_host,
+                                 orig_port):
+            name = ('stcp', next(sess_count))
+
+            class TCP(asyncssh.SSHTCPSession):
+                def connection_made(self, chan):
+                    if behaviour == 'die-on-open':
+                        raise asyncssh.DisconnectError(
+                            asyncssh.DISC_BY_APPLICATION, 'going away')
+                    log.append((name, 'connection_made'))
+                    self.chan = chan
+
+                def data_received(self, data, datatype):
+                    self.chan.write(data)
+
+                def eof_received(self):
+                    return False
+
+                def connection_lost(self, exc):
+                    log.append((name, 'connection_lost',
+                                type(exc).__name__ if exc else None))
+
+            return TCP()
+
+        def session_requested(self):
+            if behaviour != 'die-on-open':
+                return False        # the process factory takes it
+
+            # a server that hits a fatal error while accepting the channel:
+            # OPEN_CONFIRMATION and DISCONNECT leave back to back
+            class Dying(asyncssh.SSHServerSession):
+                def connection_made(self, chan):
+                    raise asyncssh.DisconnectError(
+                        asyncssh.DISC_BY_APPLICATION, 'server going away')
+
+            return Dying()
+
     async def handler(process):
         name = ('ssess', next(sess_count))
         log.append((name, 'connection_made'))
@@ -220,6 +280,12 @@ def run_history(case) -> CaseResult:
     files: List[Any] = []
     labels = set()
 
+    if behaviour == 'die-on-open' and chunks and min(chunks) >= 1000 and \
+            any(op[0] in ('proc', 'session', 'sftp', 'run', 'tcp')
+                for op in case['ops']):
+        # both records reach the client in one read
+        labels.add('reply-and-disconnect-in-one-read')
+
     def spawn(kind, coro):
         t = h.spawn(coro)
         tasks.append((kind, t))
@@ -257,6 +323,12 @@ def run_history(case) -> CaseResult:
                     encoding=None))
             elif k == 'sftp':
                 spawn('sftp', pair.c.start_sftp_client())
+            elif k == 'tcp':
+                # direct-tcpip with the callback API: nothing is awaited
+                # between the confirmation and the session's connection_made
+                i = len([1 for kd, _ in tasks if kd == 'tcp'])
+                spawn('tcp', pair.c.create_connection(
+                    lambda i=i: LogTCP(log, ('ctcp', i)), 'dest', 7))
             elif k == 'forward':
                 spawn('forward', pair.c.forward_remote_port('', 0, 'h', 1))
             elif k == 'run':
@@ -397,7 +469,11 @@ def run_history(case) -> CaseResult:
                             104, 'Connection reset by peer'),
                         'etimedout': TimeoutError(
                             110, 'Connection timed out'),
-                        'epipe': BrokenPipeError(32, 'Broken pipe')}[how])
+                        'epipe': BrokenPipeError(32, 'Broken pipe'),
+                        # a transport (TLS tunnel, another event loop
+                        # implementation) reporting something that is not an
+                        # OSError
+                        'runtime': RuntimeError('transport failed')}[how])
         elif term[0] == 'timeout':
             h.advance(200000)
 
@@ -851,7 +927,7 @@ def strategy(tier: str):
     n = pick([0, 1, 10, 100, 5000, 70000])
     op = st.one_of(
         st.just(['proc']), st.just(['proc']), st.just(['session']),
-        st.just(['sftp']), st.just(['forward']),
+        st.just(['sftp']), st.just(['forward']), st.just(['tcp']),
         st.tuples(st.just('run'), n).map(list),
         st.tuples(pick(['write', 'write', 'drain', 'read', 'read',
                         'readline', 'eof', 'pclose', 'kill', 'wait',
@@ -871,18 +947,35 @@ def strategy(tier: str):
         st.tuples(st.just('cut'), pick(['c', 's']),
                   pick([0, 0, 1, 3, 4, 5, 17, 40, 200]),
                   pick(['eof', 'eof', 'reset', 'reset', 'etimedout',
-                        'epipe'])).map(list))
-    return st.fixed_dictionaries({
+                        'epipe', 'runtime'])).map(list))
+    # the reply to a channel open and the DISCONNECT of a dying server in
+    # one read, with other waiters around it
+    dying = st.fixed_dictionaries({
+        'server': st.just('die-on-open'), 'window': st.just(4096),
+        'chunks': pick([[4000], [100000], [4000], []]),
+        'pre': st.just(None),
+        'ops': st.tuples(
+            st.lists(pick([['sftp'], ['forward'], ['pump']]), max_size=2),
+            pick([['session'], ['tcp'], ['tcp'], ['proc'], ['run', 10],
+                  ['sftp']]),
+            st.lists(op, max_size=3)).map(
+                lambda t: t[0] + [t[1], ['deliver', 4]] + t[2]),
+        'term': term})
+    general = st.fixed_dictionaries({
         'server': pick(['echo', 'gated-echo', 'gated-exit', 'flood', 'never',
-                        'hello', 'eof-gated']),
+                        'hello', 'eof-gated', 'die-on-open']),
         'window': pick([2097152, 4096, 100]),
+        # (a value larger than several records joins them into one read)
         'chunks': st.one_of(st.just([]), st.just([]),
                             st.lists(st.integers(1, 400), min_size=1,
-                                     max_size=4)),
+                                     max_size=4),
+                            st.just([4000]), st.just([100000])),
         'pre': pick([None, None] + list(range(len(SCRIPTS)))),
         'ops': st.lists(op, min_size=0, max_size=12 if tier == 'quick'
                         else 30),
         'term': term})
+    return st.one_of(general, general, general, general, general, general,
+                     general, dying)
 
 
 def cut_cases(tier: str):
@@ -913,12 +1006,34 @@ def cut_cases(tier: str):
                     # the same cut reported as a socket error instead of an
                     # end of stream (at the record boundary and inside one)
                     for k, how in ((0, 'reset'), (5, 'reset'),
-                                   (0, 'etimedout')):
+                                   (0, 'etimedout'), (0, 'runtime')):
                         yield {'server': server, 'window': 4096,
                                'chunks': [],
                                'ops': script + [['deliver', d]] if d
                                else list(script),
                                'term': ['cut', side, k, how]}
+
+
+def dying_cases(tier: str):
+    """A server that ends the connection from inside its channel-open
+    callback, against every way of opening a channel, the reply and the
+    DISCONNECT arriving in one read or in two, followed by every ending"""
+
+    terms = [[t] for t in ('cclose', 'cabort', 'sclose', 'sabort',
+                           'sdisconnect', 'cdisconnect', 'timeout')] + \
+        [['cut', 'c', 0, 'eof'], ['cut', 's', 0, 'reset']]
+
+    for opener in (['tcp'], ['session'], ['proc'], ['sftp'], ['run', 10]):
+        for chunks in ([], [4000], [100000], [7]):
+            for prefix in ([], [['forward']], [['tcp']]):
+                for term in terms:
+                    # 'deliver' lets each side finish reacting before the
+                    # next read (reply and DISCONNECT are both queued by
+                    # then); 'pump' hands records over as they appear
+                    for how in (['deliver', 4], ['pump']):
+                        yield {'server': 'die-on-open', 'window': 4096,
+                               'chunks': chunks, 'pre': None,
+                               'ops': prefix + [opener, how], 'term': term}
 
 
 FAMILIES = [
@@ -930,6 +1045,7 @@ FAMILIES = [
                        'sftp-stat', 'forward', 'run', 'wait_closed')] +
                      ['cut-mid-record', 'wait-before-term',
                       'cut-how:reset', 'cut-how:etimedout', 'cut-how:eof',
+                      'reply-and-disconnect-in-one-read',
                       'drain-blocked-after-peer-eof:client',
                       'drain-blocked-after-peer-eof:server']},
            case_timeout=120, timeout_is_violation=True),
@@ -937,7 +1053,12 @@ FAMILIES = [
            case_timeout=120, timeout_is_violation=True),
     Family('cuts', run_history, enumerate=cut_cases, exhaustive=True,
            required={'all': ['cut-how:reset', 'cut-how:etimedout',
-                             'cut-how:eof', 'pending:sftp-stat']},
+                             'cut-how:runtime', 'cut-how:eof',
+                             'pending:sftp-stat']},
+           case_timeout=120, timeout_is_violation=True),
+    Family('dying-server', run_history, enumerate=dying_cases,
+           exhaustive=True,
+           required={'all': ['reply-and-disconnect-in-one-read']},
            case_timeout=120, timeout_is_violation=True),
     Family('redirected', run_redirected, enumerate=redirected_cases,
            exhaustive=True, required={'all': ['pending:drain', 'term:cut',
